@@ -55,10 +55,23 @@ def run_prop(prop: str, repo_root: str, tier: str = "quick") -> Tuple[str, List[
         return (f"error: {e}", [])
 
 
-def apply_edit(src_root: str, edits: List[Tuple[str, str, str]]) -> str:
+def apply_edit(src_root: str, edits) -> str:
     d = tempfile.mkdtemp(prefix="cxxhp-sa-")
     shutil.copytree(os.path.join(src_root, "cxxheaderparser"), os.path.join(d, "cxxheaderparser"),
                     ignore=shutil.ignore_patterns("__pycache__"))
+    if isinstance(edits, str):
+        # a stored unified diff (behaviour-preserving refactoring or seeded defect), applied with patch(1)
+        import subprocess
+
+        r = subprocess.run(["patch", "-p1", "-s", "--no-backup-if-mismatch", "-i", edits], cwd=d, capture_output=True, text=True)
+        if r.returncode != 0:
+            shutil.rmtree(d)
+            raise ValueError(f"patch does not apply: {edits}")
+        import ast as _ast
+
+        for pth in pathlib.Path(d).rglob("*.py"):
+            _ast.parse(pth.read_text())
+        return d
     for rel, old, new in edits:
         p = pathlib.Path(d) / "cxxheaderparser" / rel
         s = p.read_text()
@@ -144,6 +157,17 @@ def controls_for_property(prop: str, src_root: str, base_keys: set, jobs: int = 
             if not expect:
                 continue
         tasks.append((c["name"], c["kind"], c["edits"], [prop], expect, src_root, len(c.get("props", [])) if c["kind"] == "positive" else 0))
+    # stored behaviour-preserving refactorings written against this property (sub-agents, see DESIGN 9.8): no new finding
+    for nd in sorted((ROOT / "neutral").glob(f"{prop}-*")):
+        pf = nd / "patch.diff"
+        if pf.exists():
+            tasks.append((f"refactoring {nd.name}", "negative", str(pf), [prop], [], src_root, 0))
+    # stored seeded defects written against this property: a new finding of this property's rules
+    num = str(int(prop[1:]))
+    for sd in sorted((ROOT / "seeded").glob(f"{prop}-*")):
+        pf = sd / "patch.diff"
+        if pf.exists():
+            tasks.append((f"seeded {sd.name}", "positive", str(pf), [prop], ["R" + num + "."], src_root, 1))
     if jobs > 1 and len(tasks) > 1:
         with ProcessPoolExecutor(max_workers=jobs) as ex:
             res = list(ex.map(_one, tasks))
